@@ -136,6 +136,11 @@ def query(model, naming, gone=()):
     listed = {}
     for f in flist:
         listed.setdefault(getattr(f, 'name', None), f)
+    # names that were features of this model object earlier in the history and are not any more: asked first,
+    # before any other lookup of this query
+    ret['lookup_gone'] = [{'n': g, 'found': _fname(naming, _call(errors, 'get_feature_by_name',
+                                                                   lambda g=g: model.get_feature_by_name(naming.conc(g)), None))}
+                          for g in gone]
     lookup = []
     for f in fobjs:
         got = _call(errors, 'get_feature_by_name', lambda: model.get_feature_by_name(f.name), None)
@@ -143,10 +148,6 @@ def query(model, naming, gone=()):
                        'same': got is listed.get(f.name) and got is not None})
     missing = _call(errors, 'get_feature_by_name', lambda: model.get_feature_by_name('\x00no such'), None)
     ret['lookup'] = lookup
-    # names that were features of this model object earlier in the history and are not any more
-    ret['lookup_gone'] = [{'n': g, 'found': _fname(naming, _call(errors, 'get_feature_by_name',
-                                                                   lambda g=g: model.get_feature_by_name(naming.conc(g)), None))}
-                          for g in gone]
     ret['lookup_missing'] = _fname(naming, missing)
     fl = []
     for f in fobjs:
